@@ -36,6 +36,16 @@ CHECKS.update({
          "Breadth-first search over all begin/end/declare/declare-const/assign histories on the real symbol table up to the length bound, each state rebuilt by replaying its history on a fresh runtime.VM and compared (step error codes, both lookups, depth, live symbols) with a stack-of-maps model; plus every statement tree up to the node bound over 17 name actions in 6 block kinds (incl. method calls, handled exceptions, recursion) against the reference interpreter, with scope and call depth required to be back to zero after the run.",
          "Trusted: the stack-of-maps model and the reference interpreter (lexical block scoping as the property states). Runs that depend on dynamic scoping are skipped and counted.",
          "DESIGN.md §4 C06"),
+ "C07": ("model_checking",
+         "explicit-state BFS over copy/assign/mutate histories, each successor re-run on a fresh interpreter (E2), with a sharing probe battery per state",
+         "Breadth-first search over all histories (up to the length bound) of declarations, assignments, element/key assignments and mutating methods on three names from four nested initial values; after every operation all names are observed structurally on a fresh run of the real interpreter and compared with a heap-of-trees reference; every new state additionally gets a probe battery that mutates through each name at each container position. Literal freshness is checked on 36 programs.",
+         "Trusted: the reference interpreter's copy semantics (deep copy on declaration/assignment, objects shared). By-reference argument passing is carved out.",
+         "DESIGN.md §4 C07"),
+ "C12": ("model_checking",
+         "explicit-state BFS over list/dictionary operation histories with a full observation battery after every operation (E2)",
+         "Breadth-first search over all histories (up to the length bound) of list and dictionary operations from three initial states; after every operation value, display text, length, ends, reversal, membership, guarded reads around the bounds, iteration order, key/value lists, keyed reads and generated JSON are compared between a fresh run of the real interpreter and a slice / ordered-map reference.",
+         "Trusted: the slice / ordered-map reference model. Histories beyond the bound are not covered.",
+         "DESIGN.md §4 C12"),
 })
 NOT_YET = {}
 props = [json.loads(l) for l in open(f"{V}/properties.jsonl")]
